@@ -17,6 +17,13 @@ int gettimeofday(struct timeval *tv, void *tz) {
   return 0;
 }
 static int softcur[MAXC];
+/* the scripted cursor (all-set mask, white) and pointer: what a soft-cursor client must show */
+static int havecur, curw, curh, curxh, curyh, ptrx, ptry;
+#define CURPIX 0x00ffffffu
+static int in_curbox(int x, int y, int cx, int cy) {
+  int x0 = cx - curxh, y0 = cy - curyh;
+  return havecur && x >= x0 && x < x0 + curw && y >= y0 && y < y0 + curh;
+}
 static rfbScreenInfoPtr scr;
 static int W, H;
 static vh_conn conns[MAXC];
@@ -55,18 +62,34 @@ static void oracle_inv(int n) {
   rfbClientPtr cl = conns[n].cl; uint32_t *fb = (uint32_t *)scr->frameBuffer;
   unsigned char *m, *c; int x, y, bad = 0, bx = -1, by = -1;
   if (!cl) return;
-  if (softcur[n]) { printf("!inv %d skip-softcursor idle=%d\n", n, sraRgnEmpty(cl->modifiedRegion) && sraRgnEmpty(cl->copyRegion)); return; }
+  if (softcur[n] && !havecur) { printf("!inv %d skip-softcursor idle=%d\n", n, sraRgnEmpty(cl->modifiedRegion) && sraRgnEmpty(cl->copyRegion)); return; }
   m = mask_of(cl->modifiedRegion); c = mask_of(cl->copyRegion);
   for (y = 0; y < H; y++) for (x = 0; x < W; x++) {
+    /* a soft-cursor client shows the cursor where it was last painted for it (cl->cursorX/Y) */
+    uint32_t want = (softcur[n] && in_curbox(x, y, cl->cursorX, cl->cursorY)) ? CURPIX : fb[y * W + x];
     if (m[y * W + x]) continue;
     if (c[y * W + x]) {
       int sx = x - cl->copyDX, sy = y - cl->copyDY;
-      if (sx < 0 || sy < 0 || sx >= W || sy >= H || fb[y * W + x] != pic[n][sy * W + sx]) { if (!bad) { bx = x; by = y; } bad++; }
-    } else if (fb[y * W + x] != pic[n][y * W + x]) { if (!bad) { bx = x; by = y; } bad++; }
+      if (sx < 0 || sy < 0 || sx >= W || sy >= H || want != pic[n][sy * W + sx]) { if (!bad) { bx = x; by = y; } bad++; }
+    } else if (want != pic[n][y * W + x]) { if (!bad) { bx = x; by = y; } bad++; }
   }
   if (bad) printf("!inv %d FAIL pixels=%d first=%d,%d\n", n, bad, bx, by);
   else printf("!inv %d ok idle=%d\n", n, sraRgnEmpty(cl->modifiedRegion) && sraRgnEmpty(cl->copyRegion));
   free(m); free(c);
+}
+
+/* `settled N`: the script claims the server has nothing more to send to N (python verifies the claim
+ * from the observations); the whole picture must equal the framebuffer, for a soft-cursor client with
+ * the scripted cursor painted at the scripted pointer position.  Uses no library state. */
+static void oracle_settled(int n) {
+  uint32_t *fb = (uint32_t *)scr->frameBuffer; int x, y, bad = 0, bx = -1, by = -1;
+  if (softcur[n] && !havecur) { printf("!settled %d skip\n", n); return; }
+  for (y = 0; y < H; y++) for (x = 0; x < W; x++) {
+    uint32_t want = (softcur[n] && in_curbox(x, y, ptrx, ptry)) ? CURPIX : fb[y * W + x];
+    if (want != pic[n][y * W + x]) { if (!bad) { bx = x; by = y; } bad++; }
+  }
+  if (bad) printf("!settled %d FAIL pixels=%d first=%d,%d soft=%d\n", n, bad, bx, by, softcur[n]);
+  else printf("!settled %d ok\n", n);
 }
 
 static uint16_t be16(const unsigned char *p) { return (uint16_t)((p[0] << 8) | p[1]); }
@@ -137,11 +160,12 @@ int main(void) {
       c = rfbMakeXCursor(w, h, bits, bits); c->xhot = atoi(tok[3]); c->yhot = atoi(tok[4]);
       c->cleanup = TRUE;
       rfbSetCursor(scr, c); free(bits);
+      havecur = 1; curw = w; curh = h; curxh = c->xhot; curyh = c->yhot;
       puts("ok");
     } else if (!strcmp(tok[0], "client") && n == 2) {
       int id = atoi(tok[1]); int i;
       if (id < 0 || id >= MAXC || used[id]) { puts("bad-op"); continue; }
-      used[id] = 1;
+      used[id] = 1; softcur[id] = 1;   /* no cursor-shape updates until SetEncodings asks for them */
       vh_connect_pre(scr, &conns[id], "RFB 003.008\n", 12);
       vh_handshake_none(scr, &conns[id], 1);
       pic[id] = (uint32_t *)malloc((size_t)W * H * 4);
@@ -165,6 +189,7 @@ int main(void) {
     } else if (!strcmp(tok[0], "ptr") && n == 3) {
       int k, done = 0;
       for (k = 0; k < MAXC && !done; k++) if (used[k] && conns[k].cl) { rfbDefaultPtrAddEvent(0, atoi(tok[1]), atoi(tok[2]), conns[k].cl); done = 1; }
+      if (done) { ptrx = atoi(tok[1]); ptry = atoi(tok[2]); }
       puts(done ? "ok" : "bad-op");
     } else if ((!strcmp(tok[0], "draw") && n == 6) || (!strcmp(tok[0], "mark") && n == 5)) {
       int x1 = atoi(tok[1]), y1 = atoi(tok[2]), x2 = atoi(tok[3]), y2 = atoi(tok[4]);
@@ -217,6 +242,11 @@ int main(void) {
       printf("M="); print_region(cl->modifiedRegion); printf(" C="); print_region(cl->copyRegion);
       printf(" R="); print_region(cl->requestedRegion); printf(" d=%d,%d\n", cl->copyDX, cl->copyDY);
       oracle_inv(id);
+    } else if (!strcmp(tok[0], "settled") && n == 2) {
+      int id = atoi(tok[1]);
+      if (id < 0 || id >= MAXC || !used[id] || !conns[id].cl) { puts("bad-op"); continue; }
+      puts("ok");
+      oracle_settled(id);
     } else puts("bad-op");
     fflush(stdout);
   }
